@@ -819,6 +819,10 @@ class Mini:
                 return (last, args[0])
         if "Ctor(Variant, Fn)" in H.strip(H.strip(n)[2])[2]:
             return ("variant", self.canon(p), args)
+        if p in ("std::iter::sources::once::once", "std::iter::once") and len(args) == 1:
+            return ("iter", [args[0]])
+        if p in ("std::iter::sources::empty::empty", "std::iter::empty"):
+            return ("iter", [])
         if last == "new" and "NonZero" in p and len(args) == 1 and isinstance(args[0], int):
             return ("Some", args[0]) if args[0] != 0 else "None"
         if p in ("std::vec::Vec::<T>::with_capacity", "std::vec::Vec::<T>::new"):
@@ -1188,6 +1192,17 @@ class Mini:
             return all(self.truth(self.apply(args[0], [x])) for x in self.iterate(recv))
         if p == "std::iter::traits::iterator::Iterator::map":
             return ("iter", [self.apply(args[0], [x]) for x in self.iterate(recv)])
+        if p == "std::iter::traits::iterator::Iterator::filter_map":
+            out = []
+            for x in self.iterate(recv):
+                r = self.apply(args[0], [x])
+                if r == "None":
+                    continue
+                if isinstance(r, tuple) and len(r) == 2 and r[0] == "Some":
+                    out.append(r[1])
+                else:
+                    raise Unsupported("filter_map closure result")
+            return ("iter", out)
         if p == "std::iter::traits::iterator::Iterator::flat_map":
             out = []
             for x in self.iterate(recv):
